@@ -1357,6 +1357,7 @@ fn c18_main(args: &[String]) {
         ],
         wall_s: wall,
         violations: out_viol,
+        occurrences: BTreeMap::new(),
     });
 }
 
